@@ -270,7 +270,7 @@ def build_cases(tier: str):
         from mc.lang import aggfam
         naggs = 0
         for ctx, text in aggfam.queries(backend):
-            if text not in seen and (tier != "quick" or backend == "atlas" or ctx.split(":")[0] in ("ev-tuple", "obj-stream", "obj-sum", "ev-seed", "obj-seed")):
+            if text not in seen and (tier != "quick" or backend == "atlas" or ctx.split(":")[0] in ("ev-tuple", "obj-stream", "obj-sum", "ev-seed", "obj-seed", "ev-seed-use")):
                 seen.add(text)
                 naggs += 1
                 cases.append(Case(pid, backend, text, md, {"k": "aggregate:" + ctx, "ndev": 0}))
